@@ -452,3 +452,40 @@ def check_add_vars(ctx, F, rule="E-VNM.addvars"):
         ctx.ob(rule, "%s:%s" % (rule, crate), not fails, "%s add_vars / add_named_vars_from_map: %s" % (crate, " || ".join(fails[:3]) if fails else
                "tables grow by the number of new variables and the returned range names exactly them"))
     return n
+
+
+def check_get_or_add_flag(ctx, F, rule="E-VNM.found"):
+    """`VarNameMap::get_or_add(name)` returns `(var, found)`: `found` is true exactly when the name was already present.
+    From MIR: every return tuple whose second component is the constant `true` is built after `OccupiedEntry::get`
+    (the present-name arm), every `false` one is not."""
+    fids = [f for f in F.mir if f.startswith(MOD) and f.endswith("::get_or_add")]
+    if not ctx.anchor(rule, "VarNameMap::get_or_add", len(fids) == 1):
+        return 0
+    fid = fids[0]
+    m = F.mir[fid]
+    B = cfg.Body(m)
+    occ = [i for i, t in B.calls() if re.search(r"OccupiedEntry<.*>::get$|OccupiedEntry::<.*>::get$", cfg.callee_name(t) or "")]
+    tuples = []
+    for i in sorted(B.reach):
+        b = m["blocks"][i]
+        if b["c"]:
+            continue
+        for s in b["s"]:
+            rv = s.get("rv") or {}
+            if s.get("lhs") == 0 and rv.get("k") == "aggr" and len(rv.get("ops", [])) == 2:
+                c = (rv["ops"][1] or {}).get("c")
+                tuples.append((i, str(c)))
+    ok = bool(occ) and len(tuples) >= 3
+    bad = []
+    for i, c in tuples:
+        after = any(B.dominates(o, i) for o in occ)
+        if c == "true" and not after:
+            bad.append("`found = true` is returned on a path that did not find the name")
+        if c == "false" and after:
+            bad.append("`found = false` is returned for a name that is present")
+        if c not in ("true", "false"):
+            bad.append("the flag is not a constant")
+    ctx.ob(rule, rule, ok and not bad, "%s (%s): %s" % (F.nice(fid), F.where(fid), "; ".join(sorted(set(bad))) if bad else
+                                                      "found is true exactly on the present-name arm (%d returns)" % len(tuples) if ok else
+                                                      "return tuples / OccupiedEntry::get not found"))
+    return 1
